@@ -27,58 +27,92 @@ def oracles_():
     return [o, e, n, r]
 
 
+TRUSTED = [
+    "impl/t_iff.c, impl/t_xml.c, impl/t_json.c, impl/t_types.c, impl/t_jsonnum.c (white-box drivers that include the C file and call the "
+    "static functions), impl/t_xmlbuf.c + impl/t_yangstr.c (the same, plus function-like macros malloc / ly_realloc / free defined "
+    "between the headers and the included source to record the requested sizes; the sources are not edited), impl/t_robust.c (the "
+    "search driver: post-conditions, LSan / heap-growth leak attribution, CPU limit, health workload)",
+    "tools/props/comps_xmlbuf.py + comps_yangstr.py render EVENT lists into texts: that a text is cut into exactly those events by the "
+    "C loop is checked only by the agreement of the compared lines, not proved; tools/props/comps_robust.py classify() / asan_tag() "
+    "(sanitizer report -> tag, solo re-run of coarse release-build failures on the ASan build)",
+]
+
+ASSUMPTIONS = [
+    "every theorem is about a Gallina transcription of the named C functions; the tie to the C code is differential testing (T2) on "
+    "generated inputs under ASan+UBSan, not a proof",
+    "hypotheses of the theorems: if-feature string shorter than 2^62 bytes (len_ok); JSON text shorter than 4 GiB; XML / YANG events "
+    "with characters and reference results of 1 to 4 bytes (ev_wf: what ly_getutf8 / ly_pututf8 deliver); C05_yangstr_len_rfc only for "
+    "ONE double-quoted string (no + concatenation) whose lines hold characters, blanks, tabs and valid escapes and that ends with its "
+    "closing quote",
+    "malloc / realloc never fail (LY_EMEM paths are in no model); sizes are unbounded N: for xmlbuf C05_xmlbuf_size_bounded shows that "
+    "size_t cannot wrap, for yangstr the same bound (input length + 17) is argued in YangStr.v but NOT proved, for iffeature / jsonnum the "
+    "C integer widths are modelled",
+]
+
 MANIFEST = {
-    "text": "Coq theorems. C05_iffeature_no_oob: for EVERY byte string, module version and feature table the model of "
-            "lys_compile_iffeature()/lysc_iffeature_value() (index style: every access to the expression array, the feature "
-            "array, the operator stack and the input answers Oob outside its extent) never goes out of bounds, terminates within "
-            "its fuel and never requests an absurd allocation. C05_jsonnum_no_oob: for EVERY byte string shorter than 4 GiB the "
-            "model of lyjson_number()/lyjson_number_is_zero()/lyjson_count_in_row()/lyjson_exp_number()/"
-            "lyjson_exp_number_copy_num_part()/lyjson_get_buffer_for_number() (index style: reads outside the text + NUL, stores "
-            "outside the malloc'ed block, failed assert()s and wrapped memset sizes all answer Oob; uint16/int32/uint32/uint64 and "
-            "strtoll modelled with their widths) never answers Oob and ends within its fuel; C05_jsonnum_len_exact: the block has "
-            "exactly buf_len+1 <= 22 bytes, the bytes stored before the NUL are exactly buf_len and the value handed on holds no unwritten "
-            "byte; C05_jsonnum_denotes: for EVERY accepted text the decimal string handed to the type plugins denotes the number that was "
-            "written (mantissa x 10^exp, exact rationals), all five layouts of lyjson_exp_number and the three outcomes without conversion "
-            "(the model is the code as of /repo 63186d2, which repaired layout 2; the former wrong results 0.5E1 -> `.`, 0.0055E3 -> `55` are "
-            "the regression Example C05_jsonnum_former_witnesses); C05_jsonnum_denotes_bounded: the same by computation on all 37449 short "
-            "strings (checks the specification side independently). C05_xmlbuf_no_overflow: for EVERY sequence of events of the loop of "
-            "lyxml_parse_value() (plain characters of 1-4 bytes, references storing 1-4 bytes, failing references, CDATA sections of ANY "
-            "length, end character, errors) every store - the pending plain bytes copied by lyxml_parse_value_use_buf(), the bytes of a "
-            "reference, the CDATA content, the final copy and the NUL - lies inside the block as allocated at that moment (model: block "
-            "size, bytes used, pending plain bytes, the 24-byte start and the as-coded 128-byte growth loop; bytes abstracted away) and "
-            "the growth loop ends; C05_xmlbuf_len_exact: a dynamic value comes back in a block of exactly length+1 bytes and the stores "
-            "are contiguous from 0 to length+1 (no byte unwritten, none twice), a value without references / CDATA makes no store and "
-            "no allocation; C05_xmlbuf_size_bounded: every block size and requested size is at most the input length + 152, so size_t "
-            "cannot wrap; C05_xmlbuf_no_leak: the malloc/realloc/free calls of one call are balanced (error: everything allocated is freed exactly "
-            "once; dynamic value: exactly the one block, not freed; value in place: no call); regression Example C05_xmlbuf_oneshot_growth_refuted: the one-shot growth of the seeded change C05-5 stores "
-            "200 bytes into a block of 153. C05_yangstr_no_underflow: for EVERY sequence of events of the quoted-string lexer of "
-            "parser_yang.c (read_qstring / buf_store_char / buf_add_char / end of get_argument; model of word_len, buf_len, trailing_ws, "
-            "block and current indentation, need_buf; characters of 1-4 bytes, blanks, tabs, line feeds, escapes, + concatenation of "
-            "double- and single-quoted parts, any ctx->indent) trailing_ws is at most word_len whenever it is subtracted, the "
-            "assert(need_buf) of the tab branch holds and every store (copy into the fresh buffer, each character after the single "
-            "16-byte growth step, leftover blanks of a tab, final NUL) lies inside the block of the moment; regression Example "
-            "C05_yangstr_noreset_refuted: without the reset of trailing_ws after a line break (seeded change C05-3) two blanks and two "
-            "line breaks subtract 2 from a word_len of 1; C05_yangstr_len_rfc: for EVERY double-quoted string without concatenation (given as its "
-            "lines, any column of the opening quote) the returned length is the number of bytes RFC 7950 6.1.3 keeps (indentation removed up to "
-            "the column after the quote with tabs of 8 columns and their leftover blanks, blanks/tabs before a line break removed, escapes kept), "
-            "against a specification on lines that knows nothing of the counters. The lexer models (UTF-8 decoder, XML value lexer, JSON string "
-            "lexer, decimal64 parser) are structural recursions on the input list and cannot read past its end. Tie: extracted models "
-            "vs the C functions on generated, exhaustive-short, malformed and truncated inputs under ASan+UBSan (T2), crash-isolated; for xmlbuf and yangstr the "
-            "compared line is return code, dynamic flag, value length and the SEQUENCE of malloc/realloc/free requests of the real "
-            "lyxml_parse_value() / get_argument() (seen through macros around the allocator names in the white-box drivers, sources unedited) on texts rendered "
-            "from event lists; the stores themselves are not observable from outside, there ASan is the observer.",
-    "note": "Partial by nature: memory safety of the remaining C code, allocator failure paths, leaks and stack depth are runtime "
-            "behaviour no executable Gallina model exhibits. Modelled C (with proofs): lys_compile_iffeature, lysc_iffeature_value, "
-            "ly_getutf8, lyxml_parse_value (bytes: XmlText.v; buffer sizes: XmlBuf.v), lyxml_parse_value_use_buf, read_qstring / buf_store_char / buf_add_char (sizes and counters: YangStr.v, length vs RFC 7950 6.1.3: YangStrLen.v; WHICH bytes are kept is slice ytext, C10/C15), lyjson_string, lyplg_type_parse_dec64, lyjson_number, lyjson_exp_number (+ helpers). "
-            "NOT modelled, only SEARCHED by the oracle `robust` (impl/t_robust.c, structure-aware mutation of valid seeds under "
-            "ASan+UBSan with a leak check per case, a CPU limit per case, dictionary reference counts, log-location stack, module list and "
-            "a health workload compared with a fresh context): lys_parse_mem (YANG, YIN, pattern and if-feature inside modules), "
-            "lyd_parse_data_mem (XML, JSON x STRICT/ONLY/OPAQ/NO_STATE/ORDERED x PRESENT/NO_STATE/MULTI_ERROR), lyd_parse_op "
-            "(RPC/notification/reply, YANG + NETCONF + RESTCONF envelopes), lyd_find_xpath, lyd_eval_xpath4, lys_find_xpath, "
-            "lyd_find_path, lyd_new_path, lyd_value_validate (all built-in types, ietf-inet-types, ietf-yang-types), ly_pattern_match. "
-            "LYB input is documented as trusted and is not fuzzed. The pointer VALUES lyjson_exp_number forms outside the text without "
-            "dereferencing them (C11 6.5.6p8) are not covered by the model. The defects the search found are listed in "
-            "known_findings.d/robust.json.",
-    "technique": "Coq proof (bounds/termination of index-style models) + differential correspondence under ASan/UBSan + sanitizer-guided "
-                 "mutation search with post-condition oracle",
+    "text": "Coq theorems about as-coded models, all closed under the global context. "
+            "(iff) C05_iffeature_no_oob: for EVERY byte string shorter than 2^62 bytes, both module versions and every feature lookup "
+            "function the model of lys_compile_iffeature() (index style: every access to the expression array, the features array, the "
+            "operator stack and the string, the assert()s of iff_stack_pop and a pop from an empty stack answer Oob) never answers Oob, ends "
+            "within its fuel and never requests an absurd allocation; regression Example C05_former_witnesses: the four former crash "
+            "inputs (fixed in /repo 299b7de, 6f66310, 685c1af) now compile or are rejected. "
+            "(jsonnum, text shorter than 4 GiB) C05_jsonnum_no_oob: the model of lyjson_number() / lyjson_number_is_zero() / "
+            "lyjson_count_in_row() / lyjson_exp_number() / lyjson_exp_number_copy_num_part() / lyjson_get_buffer_for_number() (reads outside "
+            "the text + NUL, stores outside the malloc'ed block, failed assert()s and wrapped memset sizes answer Oob; uint16 / int32 / "
+            "uint32 / uint64 and strtoll with their widths) never answers Oob and ends within its fuel; C05_jsonnum_len_exact: whenever "
+            "lyjson_exp_number() produces a value the block has exactly buf_len+1 <= 22 bytes, exactly buf_len bytes are stored before the "
+            "NUL and the value holds no unwritten byte; C05_jsonnum_denotes: for EVERY accepted text the decimal string handed on is "
+            "well-formed and denotes the number written (mantissa x 10^exp, exact rationals; five layouts of lyjson_exp_number and the three "
+            "outcomes without conversion; code as of /repo 63186d2, which repaired layout 2 - regression Example "
+            "C05_jsonnum_former_witnesses); C05_jsonnum_denotes_bounded: the same by computation alone on all strings of at most 5 "
+            "characters over `015-+.Ee`. "
+            "(xmlbuf, sizes only, bytes abstracted away) C05_xmlbuf_no_overflow: for EVERY sequence of events of the loop of "
+            "lyxml_parse_value() (plain characters and reference results of 1-4 bytes, failing references, CDATA sections of ANY length, end "
+            "character, errors) every store - pending plain bytes copied by lyxml_parse_value_use_buf(), reference bytes, CDATA content, "
+            "final copy, NUL - lies inside the block as allocated at that moment (24-byte start, as-coded 128-byte growth loop) and the "
+            "loop ends; C05_xmlbuf_len_exact: a dynamic value comes back in a block of exactly length+1 bytes, the stores are contiguous from "
+            "0 to length+1, a value without references / CDATA makes no store and no allocation; C05_xmlbuf_size_bounded: every block and "
+            "requested size is at most the byte count of the events + 152; C05_xmlbuf_no_leak (no hypothesis): the malloc / realloc / free "
+            "calls of one call are balanced; regression Example C05_xmlbuf_oneshot_growth_refuted: the one-shot growth of the seeded change "
+            "C05-5 stores 200 bytes into a block of 153. "
+            "(yangstr, sizes and counters only) C05_yangstr_no_underflow: for EVERY sequence of events of read_qstring() / buf_store_char() / "
+            "buf_add_char() / end of get_argument() (characters of 1-4 bytes, blanks, tabs, line feeds, valid and invalid escapes, invalid "
+            "characters, + concatenation of double- and single-quoted parts, end of input; either first quote, any ctx->indent) trailing_ws "
+            "is at most word_len whenever it is subtracted, the assert(need_buf) of the tab branch holds and every store (copy into the "
+            "fresh buffer, each character after the single 16-byte step, leftover blanks of a tab, final NUL) lies inside the block of the "
+            "moment; C05_yangstr_len_rfc: for ONE double-quoted string without concatenation, given as its lines, any column of the opening "
+            "quote, the call succeeds and the returned length is the number of bytes RFC 7950 6.1.3 keeps (specification on lines, "
+            "independent of the counters; example C05_yangstr_len_rfc_example); regression Example C05_yangstr_noreset_refuted: without the "
+            "reset of trailing_ws after a line break (seeded change C05-3) the subtraction underflows. "
+            "No C05 theorem, by construction only: the models of ly_getutf8, lyxml_parse_value (bytes), lyjson_string and "
+            "lyplg_type_parse_dec64 (theorems under C01 / C03) are structural recursions on the input list and cannot read past its end. "
+            "Tie (T2): extracted models vs the C functions on generated, exhaustive-short, malformed and truncated inputs, release and "
+            "ASan+UBSan builds, crash-isolated; for xmlbuf / yangstr the compared line is return code, dynamic flag, length and the SEQUENCE "
+            "of malloc / realloc / free requests of the real lyxml_parse_value() / get_argument() on texts rendered from event lists; the "
+            "stores themselves are not observable from outside, there ASan is the observer.",
+    "note": "Partial by nature: memory safety of the remaining C code, allocation failure paths, leaks and stack depth are runtime "
+            "behaviour no Gallina model exhibits. Modelled C: lys_compile_iffeature (lysc_iffeature_value is compared by T2 component "
+            "iffv, its theorems are under C11), lyjson_number + helpers, the buffer sizes of lyxml_parse_value / "
+            "lyxml_parse_value_use_buf (XmlBuf.v), the counters of read_qstring / buf_store_char / buf_add_char (YangStr.v, YangStrLen.v; "
+            "WHICH bytes are kept is slice ytext, C10/C15); T2 only under this property: ly_getutf8, lyxml_parse_value (bytes), "
+            "lyjson_string, lyplg_type_parse_dec64. Oracle level only (search on the implementation, no proof): iff-denote (every rendering "
+            "of an if-feature AST compiles and evaluates to its denotation, no crash), decvx (decimal64 value in a heap block of exactly "
+            "its length, ASan; regression of /repo f731599), jsonnum-long (mantissas around 65535 bytes), and `robust` (impl/t_robust.c: "
+            "structure-aware mutation of valid seeds under ASan+UBSan with a leak check per case, a CPU limit per case, dictionary "
+            "reference counts, log-location stack, module list, strict error-record rule, LY_EINT never returned, and a health workload "
+            "compared with a fresh context) over lys_parse_mem (YANG, YIN, pattern and if-feature inside modules), lyd_parse_data_mem "
+            "(XML, JSON x STRICT/ONLY/OPAQ/NO_STATE/ORDERED x PRESENT/NO_STATE/MULTI_ERROR), lyd_parse_op (RPC / notification / reply, YANG + "
+            "NETCONF + RESTCONF envelopes), lyd_find_xpath, lyd_eval_xpath4, lys_find_xpath, lyd_find_path, lyd_new_path, "
+            "lyd_value_validate (built-in types, ietf-inet-types, ietf-yang-types), ly_pattern_match, and API-built degenerate trees "
+            "(lyd_new_any / lyd_any_copy_value / lyd_new_opaq / lyd_new_term / lyd_new_meta / lyd_new_list, then the XML, JSON and LYB "
+            "printers, dup, compare, free). LYB INPUT is documented as trusted and is not fuzzed. Outside everything: allocation failure, "
+            "the pointer VALUES lyjson_exp_number forms outside the text without dereferencing them (C11 6.5.6p8), threads. The defects "
+            "the search found are in known_findings.d/robust.json: all fixed in /repo (commit ids recorded there, witnesses kept as "
+            "regression cases in corpus/robust.txt) except the open tags leak:parse_text_field / leak:get_argument (text argument not "
+            "released at the nesting limit), leak:lys_parse_in (one dictionary string, trigger not isolated) and timeout:pattern:pattern / "
+            "timeout:yang:modpattern / timeout:value:value (PCRE2 backtracking, libyang sets no match limit; deliberately not patched). "
+            "The former if-feature and UTF-8 findings of known_findings.json (iff-not-paren, iff-neg-depth, iff-rp-word, "
+            "utf8-overlong-4byte) are fixed.",
+    "technique": "Coq proof (bounds / termination / counter invariants of as-coded models) + differential correspondence under ASan/UBSan "
+                 "+ sanitizer-guided mutation search with post-condition oracle",
 }
